@@ -306,13 +306,16 @@ class CreateFeature:
         if not t.parent_.data_arrays or len(t.features) >= 3:
             return None
         return {"op": "create_feature", "tag": i, "arr": idx(rng), "lt": P.pick(rng, P.LINK_TYPES),
-                "pv": gen_via(run, rng)}
+                "pv": gen_via(run, rng), "frame": rng.random() < 0.25}
 
     def do(self, run, o):
         t = run.pick("tagish", o["tag"])
         if t is None or not t.parent_.data_arrays:
             return res(NOOP)
         arrs = t.parent_.data_arrays
+        if o.get("frame") and t.parent_.data_frames and o["lt"] != "tagged":
+            arrs = t.parent_.data_frames      # a data frame as feature data (not with the tagged link type)
+            run.stats["feature_with_frame_data"] += 1
         a = arrs[o["arr"] % len(arrs)]
         th = run.R(t, o.get("pv", 0))
         ah = run.R(a, 0)
@@ -571,6 +574,10 @@ SETTERS = {
 ENTITY_KINDS = ("block", "group", "array", "frame", "tag", "mtag", "source", "section")
 
 
+def v_is_tagged(o):
+    return o.get("val") == "tagged"
+
+
 def setters_for(kind):
     out = []
     for (k, a) in SETTERS:
@@ -604,6 +611,8 @@ class SetAttr:
             return res(NOOP)
         if a in ("polynom_coefficients", "expansion_origin") and (m.is_text or m.data.dtype.kind == "b"):
             return res(NOOP)      # calibration is defined for numeric data only
+        if a == "link_type" and v_is_tagged(o) and m.data is not None and m.data.kind == "frame":
+            return res(NOOP)      # a data frame cannot be 'tagged' feature data
         h = run.R(m, o.get("via", 0))
         v = o["val"]
         rv = v
@@ -854,6 +863,32 @@ class DelMetadata:
         return res(OK, touch={hd.id: "may"}, target=hd)
 
 
+@op("set_section_link")
+class SetSectionLink:
+    """Section.link = other section (a link, not ownership)."""
+
+    def gen(self, run, rng):
+        if len(run.enum("section")) < 2:
+            return None
+        return {"op": "set_section_link", "s": idx(rng), "t": idx(rng), "via": gen_via(run, rng), "tv": gen_via(run, rng)}
+
+    def do(self, run, o):
+        secs = run.enum("section")
+        if len(secs) < 2:
+            return res(NOOP)
+        sm = secs[o["s"] % len(secs)]
+        tm = secs[o["t"] % len(secs)]
+        if tm is sm:
+            return res(NOOP)
+        sh = run.R(sm, o.get("via", 0))
+        th = run.R(tm, o.get("tv", 0))
+        run.expect_ok(run.call(lambda: setattr(sh, "link", th)), "set_section_link")
+        sm.link = tm
+        run.link_path_changed()
+        run.stats["section_links"] += 1
+        return res(OK, touch={sm.id: "may"}, target=sm)
+
+
 @op("set_role")
 class SetRole:
     """multi-tag positions / extents, feature data."""
@@ -868,7 +903,7 @@ class SetRole:
             return None
         role = P.pick(rng, roles)
         return {"op": "set_role", "role": role, "o": idx(rng), "t": idx(rng), "via": gen_via(run, rng),
-                "tv": gen_via(run, rng)}
+                "tv": gen_via(run, rng), "frame": rng.random() < 0.3}
 
     def do(self, run, o):
         role = o["role"]
@@ -885,6 +920,11 @@ class SetRole:
         if not blk.data_arrays:
             return res(NOOP)
         t = blk.data_arrays[o["t"] % len(blk.data_arrays)]
+        if role == "feature_data" and o.get("frame") and blk.data_frames and owner.link_type != "tagged":
+            t = blk.data_frames[o["t"] % len(blk.data_frames)]
+            run.stats["feature_data_set_to_frame"] += 1
+        elif role == "feature_data" and owner.data is not None and owner.data.kind == "frame":
+            run.stats["feature_data_frame_to_array"] += 1
         oh = run.R(owner, o.get("via", 0))
         if role == "extents_none":
             r = run.call(lambda: setattr(oh, "extents", None))
